@@ -10,7 +10,7 @@ class H:
 
     def __init__(self, fn, key=None, unwind=None, unwindset=(), defines=(), flags=(), timeout=600,
                  replace_calls=(), witness=True, native=True, family=None, object_bits=None,
-                 std=True, desc="", unwind_violation=False):
+                 std=True, desc="", unwind_violation=False, instrument=()):
         self.fn = fn
         self.key = key or fn
         self.unwind = unwind
@@ -25,6 +25,7 @@ class H:
         self.object_bits = object_bits
         self.std = std
         self.desc = desc
+        self.instrument = tuple(instrument)
         self.unwind_violation = unwind_violation     # True: a failed unwinding assertion is a termination VIOLATION, not a too-small bound
 
 
@@ -134,7 +135,7 @@ def run_set(chk, src, harnesses, workers=None, extra_src=()):
         h, wit, gb = job
         r = vf.cbmc(gb, h.fn, unwind=h.unwind, unwindset=h.unwindset, flags=h.flags,
                     timeout=h.timeout, replace_calls=h.replace_calls, trace=not wit,
-                    object_bits=h.object_bits, std=h.std)
+                    object_bits=h.object_bits, std=h.std, instrument=h.instrument)
         return job, r
 
     results = vf.pmap(go, jobs, workers or vf.NCPU)
